@@ -9,8 +9,8 @@ from pyvc.contract import (Contract, register, And, Or, Not, Implies, If, Eq, mo
 MODES = ("plain", "ie", "g1", "g0")
 UNGUARDED = ("plain", "ie")
 
-WIDTHS_QUICK = (1, 3, 8)
-WIDTHS_THOROUGH = (1, 2, 3, 4, 8, 16, 32)
+WIDTHS_QUICK = (0, 1, 3, 8)
+WIDTHS_THOROUGH = (0, 1, 2, 3, 4, 8, 16, 32)
 
 
 def widths(tier):
